@@ -551,7 +551,7 @@ func checkC12(c *Check, p *Program) {
 			if mc == nil {
 				if f := loadedField(stripConv(g.Common().Args[1])); f != nil {
 					for _, st := range p.index().stores[f] {
-						if m, ok := stripConv(st.Val).(*ssa.MakeChan); ok && st.Parent() == e.Caller {
+						if m, ok := stripConv(st.Val).(*ssa.MakeChan); ok && st.Parent() == e.Caller && instrDominates(st, g) {
 							mc = m
 						}
 					}
